@@ -5,7 +5,7 @@
     * `Mono`: a dispatch computation never runs out of fuel and only appends to the ghost log — for ANY state, any script
       without re-entrant commands (`ten_mono`, …, `ntriggerEvent_mono`); needs the state definitions to be well-formed
       (`ScopeOK`: the breadth-first descent through `initial` terminates);
-    * `Blk` / `Exd`: a computation in which every candidate looked at is blocked leaves the configuration, the
+    * `NBlk` / `Exd`: a computation in which every candidate looked at is blocked leaves the configuration, the
       `exited_states` set and the "nothing executed yet" status of `event_data.result` alone and appends no `exec`;
       one in which some candidate passes appends an `exec`, whatever happens afterwards;
     * `ten_spec`: `_trigger_event_nested` on an admissible configuration visits exactly `tenPairs` until the first
@@ -37,21 +37,21 @@ structure Exd {α} (r : NR α) (s : NSt) : Prop where
 
 /-- every candidate was blocked: configuration and `exited_states` as before, `event_data.result` still not True,
 no `exec` appended -/
-structure Blk (s s' : NSt) : Prop where
+structure NBlk (s s' : NSt) : Prop where
   conf : s'.conf = s.conf
   exited : s'.exited = s.exited
   result : s.result ≠ some true → s'.result ≠ some true
   glog : ∃ seg, s'.glog = s.glog ++ seg ∧ hasExec seg = false
 
-theorem Blk.refl (s : NSt) : Blk s s := ⟨rfl, rfl, id, [], by simp, rfl⟩
+theorem NBlk.refl (s : NSt) : NBlk s s := ⟨rfl, rfl, id, [], by simp, rfl⟩
 
-theorem Blk.trans {a b c : NSt} (h1 : Blk a b) (h2 : Blk b c) : Blk a c := by
+theorem NBlk.trans {a b c : NSt} (h1 : NBlk a b) (h2 : NBlk b c) : NBlk a c := by
   obtain ⟨g1, l1, e1⟩ := h1.glog
   obtain ⟨g2, l2, e2⟩ := h2.glog
   exact ⟨h2.conf.trans h1.conf, h2.exited.trans h1.exited, fun h => h2.result (h1.result h), g1 ++ g2,
     by rw [l2, l1, List.append_assoc], by rw [hasExec_append, e1, e2]; rfl⟩
 
-theorem Blk.of_nframe {s s' : NSt} (h : NFrame s s') : Blk s s' :=
+theorem NBlk.of_nframe {s s' : NSt} (h : NFrame s s') : NBlk s s' :=
   ⟨h.conf, h.exited, fun hr => by rw [h.result]; exact hr, [], by simp [h.glog], rfl⟩
 
 theorem Mono.ok {α} (a : α) (s : NSt) : Mono (.ok a s : NR α) s :=
@@ -104,7 +104,7 @@ theorem Exd.from {α} {r : NR α} {s s1 : NSt} (h : Exd r s1) (hg : ∃ seg, s1.
   obtain ⟨g, l, e⟩ := h.2 s' hs
   exact ⟨g0 ++ g, by rw [l, l0, List.append_assoc], by rw [hasExec_append, e]; simp⟩
 
-theorem Exd.from_blk {α} {r : NR α} {s s1 : NSt} (h : Exd r s1) (hb : Blk s s1) : Exd r s :=
+theorem Exd.from_blk {α} {r : NR α} {s s1 : NSt} (h : Exd r s1) (hb : NBlk s s1) : Exd r s :=
   h.from (by obtain ⟨g, l, _⟩ := hb.glog; exact ⟨g, l⟩)
 
 theorem Exd.bind_left {α β} {r : NR α} {f : α → NSt → NR β} {s : NSt}
@@ -383,7 +383,7 @@ variable (sub : NSub) (sc : Script) (cfg : NCfg)
 /-- `Transition.execute`: a blocked candidate returns False having touched nothing; a passing one appends `exec` -/
 theorem nexecute_spec (hR : NoRaise sc) (hC : NoCmds sc) (hD : Deterministic sc) (scope : Scope) (hsc : ScopeOK scope)
     (x : Ctx) (tr : TRef) (t : NTrans) (s : NSt) :
-    (npasses sc t = false → ∃ s', nexecute sub sc cfg scope x tr t s = .ok false s' ∧ Blk s s') ∧
+    (npasses sc t = false → ∃ s', nexecute sub sc cfg scope x tr t s = .ok false s' ∧ NBlk s s') ∧
     (npasses sc t = true → Exd (nexecute sub sc cfg scope x tr t s) s) := by
   obtain ⟨s1, e1, f1⟩ := ncallbacks_fr sub sc cfg hR hC .prepare x t.prepare (s.emitG (.cand tr))
   obtain ⟨s2, e2, f2⟩ := nevalConds_det sub sc cfg hR hC hD x t.conds s1
@@ -414,15 +414,15 @@ theorem nexecute_spec (hR : NoRaise sc) (hC : NoCmds sc) (hD : Deterministic sc)
 /-- the candidate loop of `NestedEvent._process` -/
 theorem ntry_spec (hR : NoRaise sc) (hC : NoCmds sc) (hD : Deterministic sc) (scope : Scope) (hsc : ScopeOK scope)
     (x : Ctx) : ∀ (cands : List (TRef × NTrans)) (s : NSt),
-    ((cands.any fun c => npasses sc c.2) = false → ∃ s', ntry sub sc cfg scope x cands s = .ok () s' ∧ Blk s s') ∧
+    ((cands.any fun c => npasses sc c.2) = false → ∃ s', ntry sub sc cfg scope x cands s = .ok () s' ∧ NBlk s s') ∧
     ((cands.any fun c => npasses sc c.2) = true → Exd (ntry sub sc cfg scope x cands s) s)
-  | [], s => ⟨fun _ => ⟨s, rfl, Blk.refl s⟩, fun h => by simp at h⟩
+  | [], s => ⟨fun _ => ⟨s, rfl, NBlk.refl s⟩, fun h => by simp at h⟩
   | (tr, t) :: r, s => by
     obtain ⟨hb, hx⟩ := nexecute_spec sub sc cfg hR hC hD scope hsc x tr t s
     cases hp : npasses sc t with
     | false =>
       obtain ⟨s1, e1, b1⟩ := hb hp
-      have b1' : Blk s { s1 with result := some false } :=
+      have b1' : NBlk s { s1 with result := some false } :=
         ⟨b1.conf, b1.exited, fun _ h => (by cases h), b1.glog⟩
       obtain ⟨ihb, ihx⟩ := ntry_spec hR hC hD scope hsc x r { s1 with result := some false }
       have hstep : ntry sub sc cfg scope x ((tr, t) :: r) s = ntry sub sc cfg scope x r { s1 with result := some false } := by
@@ -446,15 +446,15 @@ theorem ntry_spec (hR : NoRaise sc) (hC : NoCmds sc) (hD : Deterministic sc) (sc
 /-- `NestedEvent._process` -/
 theorem nprocess_spec (hR : NoRaise sc) (hC : NoCmds sc) (hD : Deterministic sc) (scope : Scope) (hsc : ScopeOK scope)
     (x : Ctx) (cands : List (TRef × NTrans)) (s : NSt) :
-    ((cands.any fun c => npasses sc c.2) = false → ∃ s', nprocess sub sc cfg scope x cands s = .ok () s' ∧ Blk s s') ∧
+    ((cands.any fun c => npasses sc c.2) = false → ∃ s', nprocess sub sc cfg scope x cands s = .ok () s' ∧ NBlk s s') ∧
     ((cands.any fun c => npasses sc c.2) = true → Exd (nprocess sub sc cfg scope x cands s) s) := by
   obtain ⟨s1, e1, f1⟩ := ncallbacks_fr sub sc cfg hR hC .prepareEvent x cfg.prepareEvent s
   obtain ⟨hb, hx⟩ := ntry_spec sub sc cfg hR hC hD scope hsc x cands s1
   have heq : nprocess sub sc cfg scope x cands s = ntry sub sc cfg scope x cands s1 := by
     unfold nprocess; rw [e1, nbind_ok]
   rw [heq]
-  exact ⟨fun h => by obtain ⟨s2, e2, b2⟩ := hb h; exact ⟨s2, e2, (Blk.of_nframe f1).trans b2⟩,
-    fun h => (hx h).from_blk (Blk.of_nframe f1)⟩
+  exact ⟨fun h => by obtain ⟨s2, e2, b2⟩ := hb h; exact ⟨s2, e2, (NBlk.of_nframe f1).trans b2⟩,
+    fun h => (hx h).from_blk (NBlk.of_nframe f1)⟩
 
 theorem ncandidates_any (pre : SPath) (ev : Nat) (ts : List NTrans) (p : SPath) (f : NTrans → Bool) :
     ((ncandidates pre ev ts p).any fun c => f c.2) = (nmayCands ts p).any f := by
@@ -479,9 +479,9 @@ theorem tnLoop_spec (hR : NoRaise sc) (hC : NoCmds sc) (hD : Deterministic sc) (
     (x : Ctx) (ev : Nat) (ts : List NTrans) : ∀ (ps : List SPath) (s : NSt),
     (∀ p ∈ ps, (getState cfg.root scope p).isSome = true) → s.exited = [] → s.result ≠ some true →
     ((ps.any fun p => (nmayCands ts p).any (npasses sc)) = false →
-      ∃ s', tnLoop sub sc cfg scope x ev ts ps [] s = .ok [] s' ∧ Blk s s') ∧
+      ∃ s', tnLoop sub sc cfg scope x ev ts ps [] s = .ok [] s' ∧ NBlk s s') ∧
     ((ps.any fun p => (nmayCands ts p).any (npasses sc)) = true → Exd (tnLoop sub sc cfg scope x ev ts ps [] s) s)
-  | [], s, _, _, _ => ⟨fun _ => ⟨s, rfl, Blk.refl s⟩, fun h => by simp at h⟩
+  | [], s, _, _, _ => ⟨fun _ => ⟨s, rfl, NBlk.refl s⟩, fun h => by simp at h⟩
   | p :: ps, s, hreg, hex, hres => by
     by_cases hce : (ncandidates scope.pre ev ts p).isEmpty = true
     · -- no transition of this event from `p` in this scope
@@ -522,7 +522,7 @@ theorem triggerNested_spec (hR : NoRaise sc) (hC : NoCmds sc) (hD : Deterministi
     (hsub : s.conf.sub? scope.pre = some F) (hc : ConfOK scope.states F = true) (hex : s.exited = [])
     (hres : s.result ≠ some true) :
     ((((resolveOrder F).getD []).any fun p => (nmayCands ts p).any (npasses sc)) = false →
-      ∃ v s', triggerNested sub sc cfg scope x ev ts s = .ok v s' ∧ Blk s s' ∧ v ≠ some true) ∧
+      ∃ v s', triggerNested sub sc cfg scope x ev ts s = .ok v s' ∧ NBlk s s' ∧ v ≠ some true) ∧
     ((((resolveOrder F).getD []).any fun p => (nmayCands ts p).any (npasses sc)) = true →
       Exd (triggerNested sub sc cfg scope x ev ts s) s) := by
   obtain ⟨order, ho⟩ := resolveOrder_total F
@@ -652,7 +652,7 @@ theorem tenPairs_cons (a : SPath) (key : Nat) (value rest : Forest) (first : Boo
 /-- **`_trigger_event_nested` until the first passing candidate.**  Scope reachable from the machine, sub-tree `tree`
 of the configuration admissible; `first` says whether this is the head of the scope's loop (event not offered to the
 scope yet).  If no pair of `tenPairs` has a passing candidate the call returns normally, has changed nothing
-(`Blk`) and reports no execution (`AllFalse`); otherwise it appends an `exec`. -/
+(`NBlk`) and reports no execution (`AllFalse`); otherwise it appends an `exec`. -/
 theorem ten_spec (hR : NoRaise sc) (hC : NoCmds sc) (hD : Deterministic sc) (x : Ctx) (ev : Nat) :
     ∀ (tree : Forest) (scope : Scope) (res : List (Nat × Bool)) (offered first : Bool) (s : NSt),
     cfg.root.walkTo scope.pre = some scope → ScopeOK scope → ConfOK scope.states tree = true →
@@ -661,14 +661,14 @@ theorem ten_spec (hR : NoRaise sc) (hC : NoCmds sc) (hD : Deterministic sc) (x :
     (first = false → offered = true ∨ alookup ev scope.events = none) →
     s.exited = [] → s.result ≠ some true → AllFalse res →
     ((tenPairs scope.pre tree first).any (trigP sc cfg ev) = false →
-      ∃ res' s', ten sub sc cfg x ev scope tree res offered s = .ok res' s' ∧ Blk s s' ∧ AllFalse res') ∧
+      ∃ res' s', ten sub sc cfg x ev scope tree res offered s = .ok res' s' ∧ NBlk s s' ∧ AllFalse res') ∧
     ((tenPairs scope.pre tree first).any (trigP sc cfg ev) = true →
       Exd (ten sub sc cfg x ev scope tree res offered s) s) := by
   intro tree
   induction tree with
   | nil =>
     intro scope res offered first s _ _ _ _ _ _ _ _ hres
-    refine ⟨fun _ => ⟨res, s, by rw [ten], Blk.refl s, hres⟩, fun h => by simp [tenPairs] at h⟩
+    refine ⟨fun _ => ⟨res, s, by rw [ten], NBlk.refl s, hres⟩, fun h => by simp [tenPairs] at h⟩
   | cons key value rest ihv ihr =>
     intro scope res offered first s hw hsc hc hkids hfirst hnot hex hresult hres
     obtain ⟨hkey, hcr, d, kids, hfind, _, hcv⟩ := ConfOK_cons hc
@@ -679,13 +679,13 @@ theorem ten_spec (hR : NoRaise sc) (hC : NoCmds sc) (hD : Deterministic sc) (x :
     have hval : s.conf.sub? (scope.pre ++ [key]) = some value := hkids key value (by simp [Forest.get?])
     -- the recursion into the child scope
     have hP1 : ((tpA scope.pre key value).any (trigP sc cfg ev) = false →
-          ∃ res1 s1, tenHead sub sc cfg x ev scope key value res s = .ok res1 s1 ∧ Blk s s1 ∧ AllFalse res1) ∧
+          ∃ res1 s1, tenHead sub sc cfg x ev scope key value res s = .ok res1 s1 ∧ NBlk s s1 ∧ AllFalse res1) ∧
         ((tpA scope.pre key value).any (trigP sc cfg ev) = true →
           Exd (tenHead sub sc cfg x ev scope key value res s) s) := by
       unfold tenHead tpA
       by_cases hve : value.isEmpty = true
       · simp only [if_pos hve]
-        exact ⟨fun _ => ⟨res, s, rfl, Blk.refl s, hres⟩, fun h => by simp at h⟩
+        exact ⟨fun _ => ⟨res, s, rfl, NBlk.refl s, hres⟩, fun h => by simp at h⟩
       · simp only [if_neg hve, hen]
         have hve' : value.isEmpty = false := by simpa using hve
         have hk2 : ∀ k v, value.get? k = some v →
@@ -706,9 +706,9 @@ theorem ten_spec (hR : NoRaise sc) (hC : NoCmds sc) (hD : Deterministic sc) (x :
         · intro h
           exact Exd.bind_left (ihx h) (fun _ s1 => Mono.ok _ s1)
     -- the offer to this scope and the rest of the loop
-    have hP2 : ∀ (res1 : List (Nat × Bool)) (s1 : NSt), Blk s s1 → AllFalse res1 →
+    have hP2 : ∀ (res1 : List (Nat × Bool)) (s1 : NSt), NBlk s s1 → AllFalse res1 →
         ((tpB scope.pre (.cons key value rest) first ++ tenPairs scope.pre rest false).any (trigP sc cfg ev) = false →
-          ∃ res' s', tenTail sub sc cfg x ev scope key rest offered res1 s1 = .ok res' s' ∧ Blk s1 s' ∧ AllFalse res') ∧
+          ∃ res' s', tenTail sub sc cfg x ev scope key rest offered res1 s1 = .ok res' s' ∧ NBlk s1 s' ∧ AllFalse res') ∧
         ((tpB scope.pre (.cons key value rest) first ++ tenPairs scope.pre rest false).any (trigP sc cfg ev) = true →
           Exd (tenTail sub sc cfg x ev scope key rest offered res1 s1) s1) := by
       intro res1 s1 b1 a1
@@ -724,7 +724,7 @@ theorem ten_spec (hR : NoRaise sc) (hC : NoCmds sc) (hD : Deterministic sc) (x :
       -- no offer: the rest of the loop with `first = false`
       have hnoOffer : (offered = true ∨ alookup ev scope.events = none) →
           ((tenPairs scope.pre rest false).any (trigP sc cfg ev) = false →
-            ∃ res' s', ten sub sc cfg x ev scope rest res1 offered s1 = .ok res' s' ∧ Blk s1 s' ∧ AllFalse res') ∧
+            ∃ res' s', ten sub sc cfg x ev scope rest res1 offered s1 = .ok res' s' ∧ NBlk s1 s' ∧ AllFalse res') ∧
           ((tenPairs scope.pre rest false).any (trigP sc cfg ev) = true →
             Exd (ten sub sc cfg x ev scope rest res1 offered s1) s1) := fun hn =>
         ihr scope res1 offered false s1 hw hsc hcr (hkr s1 b1.conf) (fun h => by cases h) (fun _ => hn) hex1 hres1 a1
@@ -777,7 +777,7 @@ theorem ten_spec (hR : NoRaise sc) (hC : NoCmds sc) (hD : Deterministic sc) (x :
             rw [e2, nbind_ok]
             have key2 : ∀ res2, AllFalse res2 →
                 ((tenPairs scope.pre rest false).any (trigP sc cfg ev) = false →
-                  ∃ res' s', ten sub sc cfg x ev scope rest res2 true s2 = .ok res' s' ∧ Blk s1 s' ∧ AllFalse res') ∧
+                  ∃ res' s', ten sub sc cfg x ev scope rest res2 true s2 = .ok res' s' ∧ NBlk s1 s' ∧ AllFalse res') ∧
                 ((tenPairs scope.pre rest false).any (trigP sc cfg ev) = true →
                   Exd (ten sub sc cfg x ev scope rest res2 true s2) s1) := by
               intro res2 a2
